@@ -611,7 +611,7 @@ def grid_plan(item):
         g = X.build_grid(entry, variant)
         for kind in X.KINDS:
             for system in ("spherical", "cartesian"):
-                out["S"]["%s|%s" % (kind, system)] = X.project(entry, g, kind, system)
+                out["S"]["%s|%s" % (kind, system)] = X.project(entry, g, kind, system, variant)
     except Exception as e:  # noqa
         out["error"] = "%s: %s" % (type(e).__name__, str(e)[:200])
     return out
@@ -635,6 +635,13 @@ def choose_grids(rng, thorough):
         es = catalog.entries(name=nm, rot=0, cut=0)
         if es and X.equal_norm(es[0]):
             out.append((es[0], "ugrid_centres"))
+    # sources that supply face AND edge centres which are not the nodal centroids / midpoints
+    # (keyword arguments of from_topology; in-memory UGRID dataset): the elements are the SUPPLIED points
+    off = [("cube", 0, "topology_offcentres"), ("cuboctahedron", 0, "ugrid_offcentres")]
+    if thorough:
+        off += [("rhombic_dodecahedron", 0, "topology_offcentres"), ("truncated_octahedron_split", 5, "ugrid_offcentres"), ("octahedron", 11, "topology_offcentres"), ("truncated_cube", 0, "ugrid_offcentres")]
+    for nm, rot, variant in off:
+        out.append((catalog.entries(name=nm, rot=rot, cut=0)[0], variant))
     return out
 
 
@@ -656,9 +663,17 @@ def queries(ctx, rng):
             if s_sph is None and s_car is None:
                 skipped += 1
                 continue
+            xyz_matches = True
             if s_sph == s_car:
                 sysgroup = {"spherical": "both", "cartesian": "both"}
                 Ss = {"both": s_sph}
+            elif s_sph is not None:
+                # the grid's (lon, lat) elements are lattice points but its x, y, z do not denote the same
+                # points: a Cartesian tree must still find the great-circle nearest ELEMENT, so its answers
+                # are judged against the positions the grid reports as (lon, lat); flagged in the signature
+                xyz_matches = False
+                sysgroup = {"spherical": "spherical", "cartesian": "spherical"}
+                Ss = {"spherical": s_sph}
             else:
                 sysgroup = {}
                 Ss = {}
@@ -674,7 +689,7 @@ def queries(ctx, rng):
             for sg, S in Ss.items():
                 for qi, q in enumerate(qs):
                     cases.append({"id": "%s|%s|%s|%s|%d" % (gid, variant, kind, sg, qi), "q": q, "S": S})
-            groups.append({"gid": gid, "entry": entry, "variant": variant, "kind": kind, "qs": qs, "sysgroup": sysgroup, "S": Ss, "thorough": thorough, "cfgs": EXACT + (FLOAT_ALL if thorough else FLOAT_QUICK)})
+            groups.append({"gid": gid, "entry": entry, "variant": variant, "kind": kind, "qs": qs, "sysgroup": sysgroup, "S": Ss, "thorough": thorough, "xyz_matches": xyz_matches, "cfgs": EXACT + (FLOAT_ALL if thorough else FLOAT_QUICK)})
     plans = X.plan(ctx, cases, workers=8)
     by_case = {c["id"]: c for c in cases}
     for gqp in groups:
@@ -699,16 +714,17 @@ def queries(ctx, rng):
     ctx.evaluations += nfloat
     ctx.traces += nfloat
     ent_index = {(rr["id"], e["j"]): e for rr in recs for e in rr["ents"]}
+    xyz_of = {"%s|%s|%s" % (gq["gid"], gq["variant"], gq["kind"]): gq["xyz_matches"] for gq in groups}
     for cid, fs in sorted(failed.items()):
         c = by_case[cid]
         for j, clause in sorted(fs):
             tag = tags["%s#%d" % (cid, j)]
             ent = ent_index[(cid, j)]
             cfg, unit, mode = tag.split("|")[0], tag.split("|")[1], tag.split("|")[2]
-            ctx.violation("%s::%s" % (cid, tag), clause, detail={"answer": ent, "lt": plans[cid]["lt"]}, replay={"grid": cid.split("|")[0], "variant": cid.split("|")[1], "kind": cid.split("|")[2], "q": c["q"], "S": c["S"], "call": tag, "answer": ent}, sig={"cfg": cfg, "unit": unit, "presentation": mode, "mode": ent["m"]})
+            ctx.violation("%s::%s" % (cid, tag), clause, detail={"answer": ent, "lt": plans[cid]["lt"]}, replay={"grid": cid.split("|")[0], "variant": cid.split("|")[1], "kind": cid.split("|")[2], "q": c["q"], "S": c["S"], "call": tag, "answer": ent}, sig={"cfg": cfg, "unit": unit, "presentation": mode, "mode": ent["m"], "xyz_matches_lonlat": xyz_of["|".join(cid.split("|")[:3])]})
     for r in res:
         for nf in r["num"]:
-            sig = {"cfg": nf["cfg"], "unit": nf["unit"], "mode": nf["mode"]}
+            sig = {"cfg": nf["cfg"], "unit": nf["unit"], "mode": nf["mode"], "xyz_matches_lonlat": xyz_of["%s|%s|%s" % (r["gid"], r["variant"], r["kind"])]}
             if "answer_is_r_in_radians" in nf:
                 sig["answer_is_r_in_radians"] = nf["answer_is_r_in_radians"]
             ctx.violation("%s|%s|%s::%s" % (r["gid"], r["variant"], r["kind"], nf["tag"]), nf["clause"], detail=nf["detail"], replay={"grid": r["gid"], "variant": r["variant"], "kind": r["kind"], "call": nf["tag"]}, sig=sig)
